@@ -8,6 +8,10 @@ CLAIMS = {
    text="Values.tla (TLC) enumerates boundary encodings of every SNMP value type and boundary OID names; each is carried at first/middle/last position of replies to get/get_many/getnext/getbulk over v1, v2c and v3 (plain, auth, DES, AES) on the real sockets, together with seeded random values over the full ranges (i64, u32, u64, octets, arcs < 2^32, REAL). TraceSession.tla decodes the logged reply octets with the TLA+ BER/SNMP codec and requires the Python result to equal PyValue(Denote(varbind)) and the key to equal OidToText(name).",
    note="Rounding of decimal REALs and >53-bit mantissas is delegated to CPython float/fractions (uninterpreted in the spec). Replies are built by an untrusted reference encoder whose every octet is re-decoded by TLC.",
    ref="DESIGN.md 5 C02", technique="TLC-generated value corpus + TLC trace validation with the TLA+ BER codec as value oracle"),
+ "C03": dict(
+   text="Pool.tla is model-checked by TLC (MessagesStartEmpty, PoolBounded) over every history of calls on two sessions (5 operations x 6 fates: answered, stray-then-answered, timeout, decode error, oversize, abandoned). Every history of length 2 (3 sampled in thorough) is replayed on pairs of real sockets of different versions/security levels sharing the process-wide buffer pool, together with seeded random calls (random OID lists, max_repetitions up to 2^31-1) and the fetch() policy of the real sync/async SnmpSession. TraceSession.tla decodes every emitted datagram with the TLA+ codec and requires canonical minimal encoding, the session's version and credentials (community; user/engine id/boots/time/flags), the PDU type of the call, non-repeaters 0 and the requested max-repetitions, a request-id in 0..2^31-1 and the requested OIDs in order each bound to NULL.",
+   note="Histories are sequential (one thread): concurrent use of the pool from several Python threads is outside this check.",
+   ref="DESIGN.md 5 C03", technique="TLC model checking of Pool.tla + exhaustive history replay + TLC trace validation of every emitted datagram"),
  "C04": dict(
    text="Session.tla is model-checked by TLC (DeliverOnlyCurrent, SkipKeepsWaiting, UndecodableEndsCall, LaterMatchDelivered) over all interleavings of sends, receive-loop iterations and injections of the curated fault alphabet; every completed behaviour within the bound is replayed on the real raw sockets of each version/security level and the recorded trace (all octets both ways) is judged by TraceSession.tla, which decodes the datagrams itself and computes each call's required outcome from the ids actually on the wire.",
    note="Bounded: <=2-3 requests, <=2 queued datagrams, <=2-4 injections per behaviour; loopback UDP assumed order-preserving; HMAC/ciphers interpreted by reference implementations.",
